@@ -106,20 +106,28 @@ class Ticket:
         region here only if the callee hands the ticket to its caller; a callee that used and released the ticket itself
         returns ordinary data."""
         site = load[4] if len(load) > 4 else ()
-        pre = ctx.site
-        if tuple(site[:len(pre)]) != tuple(pre):
-            return True
-        rel = site[len(pre):]
-        if len(rel) < 2 or rel[0][0] != ctx.body.def_ or not isinstance(rel[0][1], int):
-            return True
-        c = ctx.body.callee(rel[0][1])
-        if c is None or c.indirect:
-            return True
         F = self.env.F
-        d = F.resolve_callee(c, ctx.self_adt, self.env.ev.bind(ctx))
-        if d is None or d not in F.bodies:
+        chain = set()
+        bd = ctx.body
+        guard = 0
+        while bd is not None and guard < 6:
+            chain.add(bd.def_)
+            bd = F.bodies.get(bd.parent) if bd.is_closure else None
+            guard += 1
+        cb = None
+        for fr in site:
+            if fr[0] in chain and isinstance(fr[1], int):
+                body = F.bodies[fr[0]]
+                c = body.callee(fr[1])
+                if c is None or c.indirect:
+                    return True
+                d = F.resolve_callee(c, ctx.self_adt, self.env.ev.bind(ctx))
+                if d is None or d not in F.bodies:
+                    return True
+                cb = F.bodies[d]
+                break
+        if cb is None:
             return True
-        cb = F.bodies[d]
         csa = F.impl_self_adt(cb) or ctx.self_adt
         if (F.impl_self_adt(cb) or "").endswith("::AtomicCounter"):
             return True  # the load itself, through the counter wrapper
